@@ -316,6 +316,9 @@ func (r *Run) zeroValue(t types.Type) Value {
 			return Ptr{}
 		case u.Info()&(types.IsInteger|types.IsFloat) != 0:
 			return r.ts.Const(bitWidth(r.eng.sizes, u), 0)
+		case u.Info()&types.IsComplex != 0:
+			w := bitWidth(r.eng.sizes, u) / 2
+			return &ArrayV{E: []Value{r.ts.Const(w, 0), r.ts.Const(w, 0)}}
 		}
 	case *types.Pointer, *types.Map, *types.Chan:
 		return Ptr{}
@@ -376,6 +379,9 @@ func (r *Run) loadT(p Ptr, t types.Type) Value {
 			return r.loadInt(p, 8)
 		case u.Info()&(types.IsInteger|types.IsFloat) != 0:
 			return r.loadInt(p, r.eng.sizes.Sizeof(u))
+		case u.Info()&types.IsComplex != 0:
+			h := r.eng.sizes.Sizeof(u) / 2
+			return &ArrayV{E: []Value{r.loadInt(p, h), r.loadInt(Ptr{Obj: p.Obj, Off: p.Off + h}, h)}}
 		}
 	case *types.Pointer, *types.Map, *types.Chan:
 		return r.asPtr(r.loadWord(p))
@@ -511,6 +517,12 @@ func (r *Run) storeT(p Ptr, t types.Type, v Value) {
 				r.engineFail("storeT: width %d into %v", tv.W, t)
 			}
 			r.storeInt(p, tv)
+			return
+		case u.Info()&types.IsComplex != 0:
+			av := v.(*ArrayV)
+			h := r.eng.sizes.Sizeof(u) / 2
+			r.storeInt(p, av.E[0].(*Term))
+			r.storeInt(Ptr{Obj: p.Obj, Off: p.Off + h}, av.E[1].(*Term))
 			return
 		}
 	case *types.Pointer, *types.Map, *types.Chan:
